@@ -238,6 +238,17 @@ theorem time_timeformat_roundtrip (e : String × String) (he : e ∈ Gen.C18.tim
       simp only [wallSeconds, truncTo, timeVOf, civilOf, localSecs] at hw ⊢
       congr 1
 
+/-- The limit of the two-digit year is real: 1 Jan 2070 00:00 UTC (inside 1970..2100) printed
+with `RFC822Z` is `01 Jan 70 00:00 +0000`, which reads back as 1 Jan 1970 – the format carries the
+year modulo 100 only (Go's pivot: 69..99 → 19xx, 00..68 → 20xx).  Same behaviour in the real code
+(correspondence op `time`); not a defect of rare, recorded as the reason for the hypothesis above. -/
+theorem rfc822z_year_counterexample :
+    formatLayout (asc "02 Jan 06 15:04 -0700") (timeVOf 3155760000 0 (asc "UTC")) = asc "01 Jan 70 00:00 +0000"
+    ∧ (match parseLayout (asc "02 Jan 06 15:04 -0700") (asc "01 Jan 70 00:00 +0000") with
+        | .ok p => instantOf p 0 []
+        | .error _ => none) = some 0 := by
+  decide +kernel
+
 /-! ## Durations -/
 
 /-- `{duration {durationformat n}} = n` for every whole number of seconds whose nanosecond count
